@@ -182,14 +182,15 @@ inductive Enc where
   | simple (name : Bytes)
   /-- a ToUnicode CMap would be parsed: outside this model (property C15) -/
   | cmap
+  deriving DecidableEq
 
-def FONT : Bytes := strBytes "Font"
-def ENCODING : Bytes := strBytes "Encoding"
-def TOUNICODE : Bytes := strBytes "ToUnicode"
+def FONT : Bytes := [70, 111, 110, 116]                                   -- "Font"
+def ENCODING : Bytes := [69, 110, 99, 111, 100, 105, 110, 103]            -- "Encoding"
+def TOUNICODE : Bytes := [84, 111, 85, 110, 105, 99, 111, 100, 101]       -- "ToUnicode"
 
-def lookupName (n : Bytes) : List (String × Table) → Option Table
+def lookupName (n : Bytes) : List (Bytes × Table) → Option Table
   | [] => none
-  | (k, t) :: rest => if strBytes k = n then some t else lookupName n rest
+  | (k, t) :: rest => if k = n then some t else lookupName n rest
 
 /-- `Dictionary::get_font_encoding`; `none` = `Err`. Whenever the code would look at
 `ToUnicode` and the key is present the model answers `cmap` (not modelled further). -/
@@ -201,7 +202,7 @@ def getFontEncoding (font : Dict) : Option Enc :=
       match lookupName n FONT_ENCODINGS with
       | some t => some (.oneByte t)
       | none =>
-        if FONT_TOUNICODE_NAMES.any (fun k => strBytes k == n) then
+        if FONT_TOUNICODE_NAMES.contains n then
           (if font.has TOUNICODE then some .cmap else none)
         else some (.simple n)
     | none =>
@@ -212,7 +213,7 @@ def decodeText (e : Enc) (bs : Bytes) : Outcome UStr :=
   match e with
   | .oneByte t => bytesToString t bs
   | .simple n =>
-    if SIMPLE_UTF16_NAMES.any (fun k => strBytes k == n) then .err "out-of-model:encoding_rs"
+    if SIMPLE_UTF16_NAMES.contains n then .err "out-of-model:encoding_rs"
     else .err "CharacterEncoding"
   | .cmap => .err "out-of-model:cmap"
 
@@ -221,7 +222,7 @@ def encodeText (e : Enc) (s : UStr) : Option Bytes :=
   match e with
   | .oneByte t => some (stringToBytes t s)
   | .simple n =>
-    if SIMPLE_UTF16_NAMES.any (fun k => strBytes k == n) then some (encodeUtf16Be s)
+    if SIMPLE_UTF16_NAMES.contains n then some (encodeUtf16Be s)
     else some (stdUtf8 s)
   | .cmap => none
 
@@ -270,10 +271,10 @@ structure XState where
   done : UStr             -- chunks already pushed, concatenated
   text : UStr             -- `current_text`
 
-def OP_TF : Bytes := strBytes "Tf"
-def OP_TJ : Bytes := strBytes "Tj"
-def OP_TJ_ARR : Bytes := strBytes "TJ"
-def OP_ET : Bytes := strBytes "ET"
+def OP_TF : Bytes := [84, 102]        -- "Tf"
+def OP_TJ : Bytes := [84, 106]        -- "Tj"
+def OP_TJ_ARR : Bytes := [84, 74]     -- "TJ"
+def OP_ET : Bytes := [69, 84]         -- "ET"
 
 /-- the operation loop of `extract_text_chunks_from_page`, as seen through `extract_text`
 (which fails as soon as any chunk is an error) -/
